@@ -35,6 +35,20 @@ func (r *Run) call(st *State, fr *Frame, x *ssa.Call, b *ssa.BasicBlock, idx int
 		fr.regs[x] = res
 		r.execInstrs(st2, fr, b, idx+1, prev)
 	}
+	if fr.depth == 0 {
+		nm := ""
+		if callee != nil {
+			nm = callee.Name()
+		} else if com.IsInvoke() {
+			nm = com.Method.Name()
+		}
+		if nm != "" {
+			if st.calls == nil {
+				st.calls = map[string]int{}
+			}
+			st.calls[nm]++
+		}
+	}
 	if fr.depth == 0 && fr.spec != nil {
 		for _, c := range fr.spec.Clauses {
 			if c.Kind == "callsite" {
